@@ -227,3 +227,103 @@ Theorem C15_convergence_refuted :
   exists relayout n0 n, relayout_loop relayout 8 n0 = (n, false) /\ relayout n <> n.
 Proof. exact convergence_refuted. Qed.
 Print Assumptions C15_convergence_refuted.
+
+(* ------------------------------------------ source: weasyprint/css/counters.py regenerated on every run *)
+(* tools/py2coq.py prints, from /repo's working tree, the function `symbol` and the bodies of the branches
+   `system == 'cyclic' / 'fixed' / 'alphabetic' / 'numeric'` of CounterStyle.render_value (step 3: gen/GenCounters.v;
+   the free variables self, counter, counter_value, fixed_number, previous_types are the parameters).  Their
+   meaning is the interpreter base/Py.v (len, x[i], %, //, abs, ''.join(reversed(..)) are its primitives
+   [prim_apply]: floor semantics with Python's sign convention); `symbol(..)` is answered by running
+   its own regenerated body (base/PyLink.v); the recursive call self.render_value(..) for the decimal / fallback
+   style is an oracle [render], whatever it answers.  For EVERY tuple of symbols (B.psym: ('string', s) or
+   ('url', u), or None), every integer counter value, every other content of `self` and `counter`, each branch
+   does what [represent] of model/C15Style.v says: GN.agrees when it ends (RpInitial t: it falls off its end with
+   `initial` bound to the string of t; RpDecimal / RpFallback: it returns the value of that call), GN.raises when
+   it raises (RpExc: TypeError / IndexError; RpFuel: the loop does not end, whatever the fuel; an error of the
+   oracle).  [fuel] bounds the iterations of a `while` in the interpreter: digit_fuel v + 1 is enough.
+   So the theorems above about [represent] (C15_numeric_representation, C15_alphabetic_representation,
+   C15_cyclic_index, C15_fixed_range, ...) speak about the source text. *)
+Require WV.base.Py WV.base.PyLink WV.gen.GenCounters WV.model.C15Builtins.
+Require WV.proofs.C15_gen_numeric WV.proofs.C15_gen_alphabetic WV.proofs.C15_gen_counters.
+Module B := WV.model.C15Builtins.
+Module GN := WV.proofs.C15_gen_numeric.
+Module G := WV.proofs.C15_gen_counters.
+
+Theorem C15_source_symbol O p :
+  Py.run O GenCounters.symbol_body [("string_or_url"%string, B.vsym p)]
+    (fun _ r => r = Some (Py.VStr (B.psym_str p))) (fun _ => False).
+Proof. exact (G.gen_symbol O p). Qed.
+Print Assumptions C15_source_symbol.
+
+Theorem C15_source_numeric_branch render n fuel sf fb rest osyms c v :
+  c_symbols c = B.msyms osyms -> (digit_fuel v < fuel)%nat ->
+  Py.run (G.c15_ops render (S n) fuel) GenCounters.rv_numeric_body
+    [("self"%string, Py.VObj sf); ("counter"%string, B.vcounter osyms fb rest); ("counter_value"%string, Py.vint v)]
+    (GN.agrees (G.c15_ops render (S n) fuel) (B.rv_args (Py.VObj sf) v "decimal" Py.VNone) []
+               (represent c "numeric" None v))
+    (GN.raises (G.c15_ops render (S n) fuel) (B.rv_args (Py.VObj sf) v "decimal" Py.VNone) []
+               (represent c "numeric" None v)).
+Proof. exact (G.gen_numeric_linked render n fuel sf fb rest osyms c v). Qed.
+Print Assumptions C15_source_numeric_branch.
+
+Theorem C15_source_alphabetic_branch render n fuel sf fb rest osyms c v :
+  c_symbols c = B.msyms osyms -> (digit_fuel v < fuel)%nat ->
+  Py.run (G.c15_ops render (S n) fuel) GenCounters.rv_alphabetic_body
+    [("self"%string, Py.VObj sf); ("counter"%string, B.vcounter osyms fb rest); ("counter_value"%string, Py.vint v)]
+    (GN.agrees (G.c15_ops render (S n) fuel) (B.rv_args (Py.VObj sf) v "decimal" Py.VNone) []
+               (represent c "alphabetic" None v))
+    (GN.raises (G.c15_ops render (S n) fuel) (B.rv_args (Py.VObj sf) v "decimal" Py.VNone) []
+               (represent c "alphabetic" None v)).
+Proof. exact (G.gen_alphabetic_linked render n fuel sf fb rest osyms c v). Qed.
+Print Assumptions C15_source_alphabetic_branch.
+
+Theorem C15_source_cyclic_branch render n fuel sf fb rest osyms c fx v :
+  c_symbols c = B.msyms osyms ->
+  Py.run (G.c15_ops render (S n) fuel) GenCounters.rv_cyclic_body
+    [("self"%string, Py.VObj sf); ("counter"%string, B.vcounter osyms fb rest); ("counter_value"%string, Py.vint v)]
+    (GN.agrees (G.c15_ops render (S n) fuel) (B.rv_args (Py.VObj sf) v "decimal" Py.VNone) []
+               (represent c "cyclic" fx v))
+    (GN.raises (G.c15_ops render (S n) fuel) (B.rv_args (Py.VObj sf) v "decimal" Py.VNone) []
+               (represent c "cyclic" fx v)).
+Proof. exact (G.gen_cyclic_linked render n fuel sf fb rest osyms c fx v). Qed.
+Print Assumptions C15_source_cyclic_branch.
+
+(* the fixed branch: out of the range of the symbols it returns the call of the FALLBACK style with the counter
+   value it was given and the list previous_types *)
+Theorem C15_source_fixed_branch render n fuel sf fb rest osyms c fx v pl :
+  c_symbols c = B.msyms osyms -> c_fallback c = fb -> fb <> Some ""%string ->
+  Py.run (G.c15_ops render (S n) fuel) GenCounters.rv_fixed_body
+    [("self"%string, Py.VObj sf); ("counter"%string, B.vcounter osyms fb rest); ("counter_value"%string, Py.vint v);
+     ("fixed_number"%string, G.vfx fx); ("previous_types"%string, Py.VList pl)]
+    (GN.agrees (G.c15_ops render (S n) fuel) (B.rv_args (Py.VObj sf) v "decimal" Py.VNone)
+               (B.rv_args (Py.VObj sf) v (fallback_of c) (Py.VList pl)) (represent c "fixed" fx v))
+    (GN.raises (G.c15_ops render (S n) fuel) (B.rv_args (Py.VObj sf) v "decimal" Py.VNone)
+               (B.rv_args (Py.VObj sf) v (fallback_of c) (Py.VList pl)) (represent c "fixed" fx v)).
+Proof. exact (G.gen_fixed_linked render n fuel sf fb rest osyms c fx v pl). Qed.
+Print Assumptions C15_source_fixed_branch.
+
+(* the property text about the source itself: with at least two symbols the numeric branch binds `initial` to the
+   positional notation of the value in base len(symbols) - digits index the symbols, most significant first, no
+   leading zero - and the alphabetic branch to its bijective numeration; neither raises nor returns early *)
+Theorem C15_source_numeric_positional render n fuel sf fb rest (l : list B.psym) v :
+  2 <= Z.of_nat (List.length l) -> 0 < v -> (digit_fuel v < fuel)%nat ->
+  Py.run (G.c15_ops render (S n) fuel) GenCounters.rv_numeric_body
+    [("self"%string, Py.VObj sf); ("counter"%string, B.vcounter (Some l) fb rest); ("counter_value"%string, Py.vint v)]
+    (fun rho r => r = None /\ exists ds,
+       Py.lookup "initial" rho = Py.VStr (B.enc (join_idx (map B.msym l) ds)) /\
+       decode (Z.of_nat (List.length l)) ds = v /\ valid_digits (Z.of_nat (List.length l)) ds /\
+       no_leading_zero ds)
+    (fun _ => False).
+Proof. exact (G.gen_numeric_positional render n fuel sf fb rest l v). Qed.
+Print Assumptions C15_source_numeric_positional.
+
+Theorem C15_source_alphabetic_bijective render n fuel sf fb rest (l : list B.psym) v :
+  2 <= Z.of_nat (List.length l) -> 0 <= v -> (digit_fuel v < fuel)%nat ->
+  Py.run (G.c15_ops render (S n) fuel) GenCounters.rv_alphabetic_body
+    [("self"%string, Py.VObj sf); ("counter"%string, B.vcounter (Some l) fb rest); ("counter_value"%string, Py.vint v)]
+    (fun rho r => r = None /\ exists ds,
+       Py.lookup "initial" rho = Py.VStr (B.enc (join_idx (map B.msym l) ds)) /\
+       decode_bij (Z.of_nat (List.length l)) ds = v /\ valid_digits (Z.of_nat (List.length l)) ds)
+    (fun _ => False).
+Proof. exact (G.gen_alphabetic_bijective render n fuel sf fb rest l v). Qed.
+Print Assumptions C15_source_alphabetic_bijective.
